@@ -7,22 +7,26 @@ From Coq Require Import List Arith Bool Lia Relations.
 From AV Require Import UF.UfBase.
 From AV Require Import UF.TrUfModel.
 From AV Require Import UF.TrUfInv.
+From AV Require Import UF.TrUfLemmas.
 From AV Require Import UF.TrUfQueries.
 From AV Require Import UF.TrUfCore.
 From AV Require Import UF.TrUfNode.
 From AV Require Import UF.TrUfMerge.
 From AV Require Import UF.TrUfCases.
 From AV Require Import UF.TrUfCollapse.
+From AV Require Import UF.TrUfStep.
 Import ListNotations.
 
-Theorem tr_add_inv : forall E st x y, tinv E st ->
-  exists st' b, tr_add st x y = Ok (st', b) /\ tinv (E ++ [(x, y)]) st'.
-Proof. exact (tr_add_inv_gen (collapse_spec mm_collapse_spec)). Qed.
+(* The invariant is parametric in the set P of live classes that may lack entries in the connection maps
+   (TrUfInv.v): tinv = tinvP (fun _ => False), tinv_weak = tinvP (fun _ => True). *)
+Theorem tr_add_inv : forall {P : nat -> Prop} E st x y, tinvP P E st ->
+  exists st' b, tr_add st x y = Ok (st', b) /\ tinvP P (E ++ [(x, y)]) st'.
+Proof. intros P. exact (tr_add_inv_gen (collapse_spec mm_collapse_spec)). Qed.
 
-Theorem tr_run_inv : forall adds E st, tinv E st ->
-  exists st', tr_run st adds = Ok st' /\ tinv (E ++ adds) st'.
+Theorem tr_run_inv : forall {P : nat -> Prop} adds E st, tinvP P E st ->
+  exists st', tr_run st adds = Ok st' /\ tinvP P (E ++ adds) st'.
 Proof.
-  induction adds as [|[x y] rest IH]; intros E st H.
+  intros P. induction adds as [|[x y] rest IH]; intros E st H.
   - exists st. split; [reflexivity|]. rewrite app_nil_r; exact H.
   - destruct (tr_add_inv E st x y H) as [st1 [b [Ha H1]]].
     destruct (IH _ _ H1) as [st' [Hr H']]. exists st'. split.
@@ -37,6 +41,79 @@ Proof. intros adds. exact (tr_run_inv adds [] tr_empty tr_empty_inv). Qed.
 Lemma tr_reach_inv : forall adds st, tr_run tr_empty adds = Ok st -> tinv adds st.
 Proof.
   intros adds st H. destruct (tr_reach adds) as [st' [H1 H2]]. rewrite H in H1. inversion H1; subst. exact H2.
+Qed.
+
+(* ---- add_node_new: the weak invariant (classes may lack map entries) is preserved, the generating
+   pair list grows by (x, x), i.e. x becomes mentioned *)
+Lemma rtc_self_snoc : forall E x u v, rtc (E ++ [(x, x)]) u v -> rtc E u v \/ (u = v /\ u = x).
+Proof.
+  intros E x u v H. apply rtc_snoc_inv in H. destruct H as [H|[[A B]|[Huv Hx]]]; [left; exact H| |right; tauto].
+  destruct A as [->|A]; destruct B as [->|B]; [right; auto|left; exact B|left; exact A|left; eapply rtc_t; eassumption].
+Qed.
+
+Theorem ann_weak : forall E st x, tinv_weak E st ->
+  exists st' id fr, add_node_new st x = Ok (st', id, fr) /\ tinv_weak (E ++ [(x, x)]) st' /\
+    dominant st' id /\ mem_of st' id x /\ t_conn st' = t_conn st /\ t_rev st' = t_rev st /\
+    nsets st <= nsets st' /\ (forall s, s < nsets st -> nth_error (t_sets st') s = nth_error (t_sets st) s).
+Proof.
+  intros E st x Ht.
+  pose proof (proj1 (tinv_split E st) Ht) as [Hc [_ [Hcm Hid]]].
+  assert (Hc0 : cinv (E ++ [(x, x)]) st) by (eapply cinv_mono; [apply in_snoc|exact Hc]).
+  assert (Mx : mentioned (E ++ [(x, x)]) x) by (apply mentioned_snoc; auto).
+  destruct (ann_spec _ st x Hc0 Mx) as [st' [id [fr [He [Hc' [Hd [Hm [HC [HR [Hi [Hf Hn]]]]]]]]]]].
+  exists st', id, fr. split; [exact He|].
+  assert (Hold : forall a u, dominant st' a -> mem_of st' a u -> u <> x \/ fr = false -> dominant st a /\ mem_of st a u).
+  { intros a u Da Mu Hux. destruct fr.
+    - destruct (Hn eq_refl) as [_ [Hid' [_ [_ [Hdm Hmm]]]]]. apply Hmm in Mu. destruct Mu as [Mu|[-> ->]].
+      + split; [|exact Mu]. apply Hdm in Da. destruct Da as [Da|Da]; [exact Da|].
+        exfalso. subst a. pose proof (mem_of_lt st _ u Mu). subst id. lia.
+      + destruct Hux as [F|F]; [congruence|discriminate].
+    - destruct (Hf eq_refl) as [_ [_ [Hs Hdm]]]. split; [apply Hdm; exact Da|apply (mem_of_sets st st' Hs); exact Mu]. }
+  assert (Hxnew : fr = true -> ~ mentioned E x).
+  { intros Hfr Hmx. destruct (Hn Hfr) as [Hnone _]. apply (Hid x Hmx). exact Hnone. }
+  split; [|split; [exact Hd|split; [exact Hm|split; [exact HC|split; [exact HR|]]]]].
+  - apply tinv_split. split; [exact Hc'|]. split; [intros d _; left; exact I|]. split.
+    + intros a b u v Da Db Ma Mb R. apply rtc_self_snoc in R. destruct R as [R|[-> ->]].
+      * destruct (rtc_mentioned E u v R) as [Mu Mv].
+        assert (Hu : u <> x \/ fr = false) by (destruct fr; [left; intros ->; apply (Hxnew eq_refl Mu)|right; reflexivity]).
+        assert (Hv : v <> x \/ fr = false) by (destruct fr; [left; intros ->; apply (Hxnew eq_refl Mv)|right; reflexivity]).
+        destruct (Hold a u Da Ma Hu) as [Da' Ma']. destruct (Hold b v Db Mb Hv) as [Db' Mb'].
+        destruct (Hcm a b u v Da' Db' Ma' Mb' R) as [H|H]; [left; exact H|right].
+        unfold cn in *. rewrite HC. exact H.
+      * left. eapply (cmem_disj _ st' Hc'); eassumption.
+    + intros z Hz. apply mentioned_snoc in Hz. apply Hi. destruct Hz as [Hz|[->| ->]]; [left; apply Hid; exact Hz|right; reflexivity|right; reflexivity].
+  - destruct fr.
+    + destruct (Hn eq_refl) as [_ [_ [Hs _]]]. unfold nsets. rewrite Hs, app_length. split; [lia|].
+      intros s Hlt. rewrite nth_error_app1 by exact Hlt. reflexivity.
+    + destruct (Hf eq_refl) as [_ [Hns [Hs _]]]. split; [lia|]. intros s _. rewrite Hs. reflexivity.
+Qed.
+
+(* ---- histories mixing add and add_node_new *)
+Theorem tr_step_weak : forall E st o, tinv_weak E st ->
+  exists st' out, tr_step st o = Ok (st', out) /\ tinv_weak (E ++ pairs_of [o]) st'.
+Proof.
+  intros E st o H. destruct o as [x y|x]; cbn [tr_step pairs_of map].
+  - destruct (tr_add_inv E st x y H) as [st' [b [Ha H']]]. rewrite Ha. cbn [bind]. eauto.
+  - destruct (ann_weak E st x H) as [st' [id [fr [Ha [H' _]]]]]. rewrite Ha. cbn [bind]. eauto.
+Qed.
+
+Theorem tr_run_ops_weak : forall ops E st, tinv_weak E st ->
+  exists st', tr_run_ops st ops = Ok st' /\ tinv_weak (E ++ pairs_of ops) st'.
+Proof.
+  induction ops as [|o rest IH]; intros E st H.
+  - exists st. split; [reflexivity|]. cbn. rewrite app_nil_r; exact H.
+  - destruct (tr_step_weak E st o H) as [st1 [out [Ha H1]]].
+    destruct (IH _ _ H1) as [st' [Hr H']]. exists st'. split.
+    + cbn [tr_run_ops]. rewrite Ha. cbn [bind]. exact Hr.
+    + rewrite <- app_assoc in H'. exact H'.
+Qed.
+
+Theorem tr_reach_ops : forall ops, exists st, tr_run_ops tr_empty ops = Ok st /\ tinv_weak (pairs_of ops) st.
+Proof. intros ops. exact (tr_run_ops_weak ops [] tr_empty tr_empty_inv). Qed.
+
+Lemma tr_reach_ops_inv : forall ops st, tr_run_ops tr_empty ops = Ok st -> tinv_weak (pairs_of ops) st.
+Proof.
+  intros ops st H. destruct (tr_reach_ops ops) as [st' [H1 H2]]. rewrite H in H1. inversion H1; subst. exact H2.
 Qed.
 
 (* ---- the statements of the property *)
@@ -72,6 +149,70 @@ Proof. intros adds st H. exact (q_count_exact adds st (tr_reach_inv adds st H)).
 Theorem truf_is_empty : forall adds st, tr_run tr_empty adds = Ok st -> (tr_is_empty st = true <-> adds = []).
 Proof. intros adds st H. exact (q_is_empty adds st (tr_reach_inv adds st H)). Qed.
 
+(* ---- the same statements for histories that also call add_node_new *)
+Theorem truf_ops_total : forall ops, exists st, tr_run_ops tr_empty ops = Ok st.
+Proof. intros ops. destruct (tr_reach_ops ops) as [st [H _]]. exists st; exact H. Qed.
+Theorem truf_ops_asserts : forall ops st, tr_run_ops tr_empty ops = Ok st ->
+  disjoint_ok st = true /\ dominant_ok st = true.
+Proof. intros ops st H. exact (q_asserts _ st (tr_reach_ops_inv ops st H)). Qed.
+Theorem truf_ops_contains : forall ops st, tr_run_ops tr_empty ops = Ok st -> forall x y,
+  exists b, tr_contains st x y = Ok b /\ (b = true <-> rtc (pairs_of ops) x y).
+Proof. intros ops st H. exact (q_contains _ st (tr_reach_ops_inv ops st H)). Qed.
+Theorem truf_ops_set_of : forall ops st, tr_run_ops tr_empty ops = Ok st -> forall x,
+  exists o, tr_set_of st x = Ok o /\ (o = None <-> ~ mentioned (pairs_of ops) x) /\
+            forall l, o = Some l -> NoDup l /\ forall y, In y l <-> rtc (pairs_of ops) x y.
+Proof. intros ops st H. exact (q_set_of _ st (tr_reach_ops_inv ops st H)). Qed.
+Theorem truf_ops_rev_set_of : forall ops st, tr_run_ops tr_empty ops = Ok st -> forall x,
+  exists o, tr_rev_set_of st x = Ok o /\ (o = None <-> ~ mentioned (pairs_of ops) x) /\
+            forall l, o = Some l -> NoDup l /\ forall y, In y l <-> rtc (pairs_of ops) y x.
+Proof. intros ops st H. exact (q_rev_set_of _ st (tr_reach_ops_inv ops st H)). Qed.
+Theorem truf_ops_iter_all : forall ops st, tr_run_ops tr_empty ops = Ok st ->
+  exists l, tr_iter_all st = Ok l /\ NoDup l /\ forall x y, In (x, y) l <-> rtc (pairs_of ops) x y.
+Proof. intros ops st H. exact (q_iter_all _ st (tr_reach_ops_inv ops st H)). Qed.
+Theorem truf_ops_count_exact : forall ops st, tr_run_ops tr_empty ops = Ok st ->
+  exists l, NoDup l /\ (forall x y, In (x, y) l <-> rtc (pairs_of ops) x y) /\ tr_count_exact st = Ok (length l).
+Proof. intros ops st H. exact (q_count_exact _ st (tr_reach_ops_inv ops st H)). Qed.
+(* a history of adds only is the special case *)
+Lemma tr_run_ops_adds : forall adds st, tr_run_ops st (map (fun p => TAdd (fst p) (snd p)) adds) = tr_run st adds.
+Proof.
+  induction adds as [|[x y] rest IH]; intros st; [reflexivity|]. cbn [map tr_run_ops tr_step tr_run fst snd].
+  destruct (tr_add st x y) as [[st1 b]|e]; cbn [bind]; [apply IH|reflexivity].
+Qed.
+
+(* ---- the facts about a state that the trrel_uf provider proof (C12, truf_iface) consumes, for every exempt set P
+   (in particular for tinv_weak): listed connections join non-empty classes whose members are related *)
+Lemma listed_nonempty : forall {P : nat -> Prop} E st (H : tinvP P E st) m a s b, mset_wf st m -> In (a, s) m -> In b s ->
+  aget a m = Some s /\ (exists x, mem_of st a x) /\ (exists y, mem_of st b y).
+Proof.
+  intros P E st H m a s b Hw Hin Hb. pose proof Hw as [Hnd Hwf].
+  pose proof (in_aget _ _ _ _ Hnd Hin) as Hag. destruct (Hwf _ _ Hag) as [Ha [_ Hj]].
+  split; [exact Hag|]. split; [apply (w_nonempty _ _ H); exact Ha|apply (w_nonempty _ _ H), Hj; exact Hb].
+Qed.
+Theorem weak_conn_good : forall {P : nat -> Prop} E st a s b, tinvP P E st -> In (a, s) (t_conn st) -> In b s ->
+  (exists x, mem_of st a x) /\ (exists y, mem_of st b y) /\ forall x y, mem_of st a x -> mem_of st b y -> rtc E x y.
+Proof.
+  intros P E st a s b H Hin Hb. destruct (listed_nonempty E st H _ a s b (w_conn _ _ H) Hin Hb) as [Hag [Hx Hy]].
+  split; [exact Hx|]. split; [exact Hy|]. intros x y Mx My. apply (m_conn _ _ H a b); try assumption.
+  unfold cn, eget. rewrite Hag. exact Hb.
+Qed.
+Theorem weak_rev_good : forall {P : nat -> Prop} E st a s b, tinvP P E st -> In (a, s) (t_rev st) -> In b s ->
+  (exists x, mem_of st b x) /\ (exists y, mem_of st a y) /\ forall x y, mem_of st b x -> mem_of st a y -> rtc E x y.
+Proof.
+  intros P E st a s b H Hin Hb. destruct (listed_nonempty E st H _ a s b (w_rev _ _ H) Hin Hb) as [Hag [Hx Hy]].
+  split; [exact Hy|]. split; [exact Hx|]. intros x y Mx My.
+  destruct (Nat.eq_dec b a) as [->|Hneq]; [eapply (m_class _ _ H); eassumption|].
+  apply (m_conn _ _ H b a); try assumption. apply (g_conv _ _ H b a Hneq). unfold rv, eget. rewrite Hag. exact Hb.
+Qed.
+Theorem weak_class : forall {P : nat -> Prop} E st s x y, tinvP P E st -> mem_of st s x -> mem_of st s y -> rtc E x y.
+Proof. intros P E st s x y H. apply (m_class _ _ H). Qed.
+Theorem weak_elem : forall {P : nat -> Prop} E st x, tinvP P E st ->
+  exists o, elem_set st x = Ok o /\ forall s, o = Some s -> mem_of st s x.
+Proof.
+  intros P E st x H. destruct (elem_set_cases E st H x) as [[He _]|[d [He [_ [Hm _]]]]]; rewrite He; eexists; (split; [reflexivity|]).
+  - discriminate.
+  - intros s Hs. inversion Hs; subst. exact Hm.
+Qed.
+
 (* the specification relation is the textbook one: the transitive closure of the added pairs,
    plus the diagonal on the mentioned elements *)
 Theorem rtc_char : forall E x y,
@@ -89,4 +230,6 @@ Proof.
 Qed.
 
 Print Assumptions tr_reach.
+Print Assumptions tr_reach_ops.
+Print Assumptions ann_weak.
 Print Assumptions truf_count_exact.
